@@ -1093,8 +1093,18 @@ func (args LazyArgumentMap) filter(t syntax.Type,
 		var errs syntax.ErrorList
 		result := make(MarshalerMap, len(t.Members))
 		for _, member := range t.Members {
+			v, ok := args[member.Id]
+			if !ok {
+				errs = append(errs, &elementError{
+					element: "key " + member.Id,
+					inner:   missingValueError,
+				})
+				result[member.Id] = json.RawMessage(
+					nullBytes[:len(nullBytes):len(nullBytes)])
+				continue
+			}
 			et := lookup.Get(member.Tname)
-			b, _, err := et.FilterJson(args[member.Id], lookup)
+			b, _, err := et.FilterJson(v, lookup)
 			if err != nil {
 				errs = append(errs, &elementError{
 					element: "key " + member.Id,
